@@ -204,16 +204,18 @@ func (cw *ccWorld) msRandBegin(c *Ctx, ch string, ids []string, wellFormed bool)
 	other := map[string]string{"tt": "VT", "vt": "TT"}[ch]
 	b := msBeginArgs{u: rng.Intn(2), id: ids[rng.Intn(len(ids))], to: other, key: swKeys[rng.Intn(3)], viaTask: rng.Intn(2) == 0}
 	switch r := rng.Intn(100); {
-	case r < 50:
+	case r < 46:
 		b.tok = own
-	case r < 88:
+	case r < 82:
 		b.tok = other // reverse
-	case r < 94 && !wellFormed:
+	case r < 87 && !wellFormed:
 		b.tok = "XX"
 	default:
 		b.tok = own
 		if !wellFormed {
-			b.to = []string{own, "XX"}[rng.Intn(2)]
+			// towards the own channel (accepted: such a swap has an origin record only, which can be cancelled but
+			// never completed by its owner) or towards a channel that does not exist
+			b.to = []string{own, own, "XX"}[rng.Intn(3)]
 		}
 	}
 	n := 1 + rng.Intn(3)
@@ -287,6 +289,7 @@ func c09One(c *Ctx) error {
 				key = swKeys[n-11]
 			}
 		}
+		key = padKey(rng, key)
 		switch rng.Intn(6) {
 		case 0:
 			cw.w.Peer.Now += int64(rng.Intn(200))
@@ -324,6 +327,38 @@ func c09One(c *Ctx) error {
 				s.Assets[len(s.Assets)-1].Amount = big.NewInt(5000).Bytes()
 			}
 			term = fmt.Sprintf("MAnswer %s %d (%s)", coqZi(cw.w.Peer.Now), cw.idN(lid), cw.mswapTerm(s))
+			if rng.Intn(3) == 0 {
+				// two answers in ONE batch (mostly for the same id): the second must see the first.
+				// The state between them is not observable, so it is taken from a run of the batch cut after
+				// the first answer (on a copy of the ledger); the errors come from the full batch.
+				s2 := proto.Clone(s).(*fpb.MultiSwap)
+				if rng.Intn(4) == 0 {
+					s2.Id, _ = hex.DecodeString(strings.ToLower(ids[rng.Intn(len(ids))]))
+				}
+				if rng.Intn(2) == 0 {
+					s2.Owner = cw.users[rng.Intn(2)].Addr
+				}
+				lid2 := hex.EncodeToString(s2.Id)
+				term2 := fmt.Sprintf("MAnswer %s %d (%s)", coqZi(cw.w.Peer.Now), cw.idN(lid2), cw.mswapTerm(s2))
+				chn := cw.w.Peer.Channels[ch]
+				snap := stateSnapshot(chn)
+				cw.msAnswer(ch, s)
+				mid := cw.msObs(ch)
+				chn.State = map[string][]byte{}
+				for k, v := range snap {
+					chn.State[k] = []byte(v)
+				}
+				out := cw.w.ExecBatch(ch, &fpb.Batch{MultiSwaps: []*fpb.MultiSwap{s, s2}})
+				m1, m2 := "BATCH FAILED: "+out.Res.Message, "BATCH FAILED: "+out.Res.Message
+				if out.Resp != nil && len(out.Resp.GetSwapResponses()) == 2 {
+					m1, m2 = out.Resp.GetSwapResponses()[0].GetError().GetError(), out.Resp.GetSwapResponses()[1].GetError().GetError()
+				}
+				ops = append(ops, term)
+				steps = append(steps, fmt.Sprintf("(%s, None, None, %s)", swErr(m1), mid))
+				c.Count("one_answer_pair_" + strings.SplitN(strings.TrimPrefix(swErr(m1), "Some "), " ", 2)[0] + "_" + strings.SplitN(strings.TrimPrefix(swErr(m2), "Some "), " ", 2)[0])
+				term, msg = term2, m2
+				break
+			}
 			msg = cw.msAnswer(ch, s)
 		case r < 60:
 			lid := strings.ToLower(id)
@@ -536,7 +571,7 @@ func c09Two(c *Ctx, disc bool) error {
 				d, id, kind = x.d, x.id, x.kind
 			}
 		}
-		key := rightKey(d, id)
+		key := padKey(rng, rightKey(d, id))
 		if rng.Intn(5) == 0 {
 			key = swKeys[rng.Intn(len(swKeys))]
 		}
